@@ -120,3 +120,23 @@ Lemma effective_n_verbose ca v1 v2 n n_rel : effective_n ca v1 n n_rel = effecti
 Proof. reflexivity. Qed.
 Lemma effective_n_compute_all v n n_rel : effective_n true v n n_rel = Some n_rel.
 Proof. reflexivity. Qed.
+
+(* ---- (6) discarded quadrature nodes; data-space shift of the analytic prior term ---- *)
+Lemma gauss_sum_app tol a b : gauss_sum tol (a ++ b) == gauss_sum tol a + gauss_sum tol b.
+Proof. induction a as [|[[ev c] fv] a IH]; cbn [gauss_sum app]; [ring | rewrite IH; ring]. Qed.
+(* zero-padding after a breakdown does not change the quadrature, whatever f(0) and the components are *)
+Lemma gauss_sum_padding tol nodes pad :
+  0 < tol -> Forall (fun n => fst (fst n) == 0) pad -> gauss_sum tol (nodes ++ pad) == gauss_sum tol nodes.
+Proof.
+  intros Ht HF. rewrite gauss_sum_app.
+  assert (Z : gauss_sum tol pad == 0).
+  { induction HF as [|[[ev c] fv] r H HF IH]; cbn [gauss_sum]; [reflexivity|].
+    cbn in H. destruct (Qle_bool tol ev) eqn:E; [apply Qle_bool_iff in E; rewrite H in E; lra | rewrite IH; ring]. }
+  rewrite Z. ring.
+Qed.
+(* the data-space operator LSM^T LSM has the metric eigenvalues minus one: the shift makes both spaces agree *)
+Lemma trace_inv_spaces evs : trace_inv_exact true evs == trace_inv_exact false (map (fun e => e + 1) evs).
+Proof.
+  unfold trace_inv_exact. induction evs as [|e r IH]; cbn [map qsum]; [reflexivity|].
+  rewrite IH. setoid_replace (e + 1 + 0) with (e + 1) by ring. reflexivity.
+Qed.
